@@ -177,6 +177,7 @@ def tnet_from( conn, addr,
                 next( source )
             data		= cpppo.dotdict()
             started		= cpppo.timer()		# When did we start the current attempt at a TNET string?
+            between		= source.sent		# No symbols of the next TNET message consumed 'til this changes
             for mch,sta in engine.run( source=source, data=data ):
                 if sta is not None or source.peek() is not None:
                     continue
@@ -211,6 +212,11 @@ def tnet_from( conn, addr,
                 if eof:
                     break
                 source.chain( msg )
+                # If still between TNET messages (eg. a b'\n' separator arrives in a later recv than
+                # the end of the prior message), continue ignoring; never within a message's payload.
+                while ignore and source.sent == between and source.peek() is not None and source.peek() in ignore:
+                    next( source )
+                    between	= source.sent
 
             # Terminal state, or EOF, or control.done.  Only yield another TNET message if terminal. 
             duration		= cpppo.timer() - started
